@@ -563,572 +563,579 @@ def lookups(ex, o, total):
 
 def run(repo, chk):
     # ---------------------------------------------------------------- R-C20-1 loops that never iterate
-    nloops = 0
-    for rel in repo.modules("wntr/metrics"):
-        for fn in [n for n in ast.walk(repo.tree(rel)) if isinstance(n, ast.FunctionDef)]:
-            loops = [n for n in walk(fn) if isinstance(n, (ast.While, ast.For))]
-            if not loops:
-                continue
-            fn._rel, fn._qual = rel, fn.name
+    with chk.part("R-C20-1 loops that never iterate"):
+        nloops = 0
+        for rel in repo.modules("wntr/metrics"):
+            for fn in [n for n in ast.walk(repo.tree(rel)) if isinstance(n, ast.FunctionDef)]:
+                loops = [n for n in walk(fn) if isinstance(n, (ast.While, ast.For))]
+                if not loops:
+                    continue
+                fn._rel, fn._qual = rel, fn.name
+                try:
+                    g = CFG(fn)
+                except ExtractError:
+                    continue
+                for lp, head in g.loop_heads.items():
+                    nloops += 1
+                    back = [a for a, b, d in g.g.in_edges(head, data=True) if d.get("back")]
+                    body_reachable = g.succ_on(head, True)
+                    chk.expect(bool(back) or not body_reachable, "R-C20-1", "%s:%s loop `%s` can reach its head again (it iterates)" % (rel.split("/")[-1], fn.name, g.g.nodes[head]["label"][:50]), loc(rel, lp),
+                               "a loop whose body always returns/breaks on the first iteration computes only the first step (Euclid's algorithm must iterate until the remainder is 0)",
+                               expected="at least one path from the loop body back to the loop head", found="every path through the body leaves the loop")
+        chk.floor("R-C20-1", 10, count=nloops)
+        ex = MX()
+        lcm = repo.func(HYDM, "_lcm")
+        gcd = repo.func(HYDM, "_gcd")
+        chk.fn(gcd, lcm)
+        o = ex.run(lcm)
+        lps = [a.arg for a in lcm.args.args]
+        oklcm = False
+        if len(o) == 1 and len(lps) == 2 and o[0].ret is not None:
+            gc = ev_calls(o[0], "_gcd")
+            r = ex.S(o[0].ret)
+            if isinstance(r, sp.floor):          # x*y // gcd is the same integer
+                r = r.args[0]
+            oklcm = len(gc) >= 1 and sorted(ex.text(a) for a in gc[0][2][1]) == sorted(lps) and is_zero(r - ex.sym(lps[0]) * ex.sym(lps[1]) / ex.sym(gc[0][1]))
+        if not oklcm and len(lps) == 2:
+            # same integer by another arrangement (x // g * y): evaluated on a grid with the mathematical gcd for _gcd
             try:
-                g = CFG(fn)
-            except ExtractError:
-                continue
-            for lp, head in g.loop_heads.items():
-                nloops += 1
-                back = [a for a, b, d in g.g.in_edges(head, data=True) if d.get("back")]
-                body_reachable = g.succ_on(head, True)
-                chk.expect(bool(back) or not body_reachable, "R-C20-1", "%s:%s loop `%s` can reach its head again (it iterates)" % (rel.split("/")[-1], fn.name, g.g.nodes[head]["label"][:50]), loc(rel, lp),
-                           "a loop whose body always returns/breaks on the first iteration computes only the first step (Euclid's algorithm must iterate until the remainder is 0)",
-                           expected="at least one path from the loop body back to the loop head", found="every path through the body leaves the loop")
-    chk.floor("R-C20-1", 10, count=nloops)
-    ex = MX()
-    lcm = repo.func(HYDM, "_lcm")
-    gcd = repo.func(HYDM, "_gcd")
-    chk.fn(gcd, lcm)
-    o = ex.run(lcm)
-    lps = [a.arg for a in lcm.args.args]
-    oklcm = False
-    if len(o) == 1 and len(lps) == 2 and o[0].ret is not None:
-        gc = ev_calls(o[0], "_gcd")
-        r = ex.S(o[0].ret)
-        if isinstance(r, sp.floor):          # x*y // gcd is the same integer
-            r = r.args[0]
-        oklcm = len(gc) >= 1 and sorted(ex.text(a) for a in gc[0][2][1]) == sorted(lps) and is_zero(r - ex.sym(lps[0]) * ex.sym(lps[1]) / ex.sym(gc[0][1]))
-    if not oklcm and len(lps) == 2:
-        # same integer by another arrangement (x // g * y): evaluated on a grid with the mathematical gcd for _gcd
-        try:
-            hook = lambda name, n, ev: math.gcd(*[ev.ev(a) for a in n.args]) if name == "_gcd" else NotImplemented
-            oklcm = all(LoopEv({lps[0]: x, lps[1]: y}, None, hook).run(lcm.body) == x * y / math.gcd(x, y) for x in range(1, 25) for y in range(1, 25))
-        except (Unknown, Raised, TypeError):
-            oklcm = False
-    chk.expect(oklcm, "R-C20-1", "_lcm(x, y) = x*y / gcd(x, y)", loc(lcm), found=str(o[0].ret) if o else None)
-    rows = gcd_table(gcd)
-    wrong = [(x, y, v) for x, y, v in rows if v != math.gcd(x, y)]
-    chk.expect(not wrong, "R-C20-1", "_gcd(x, y) is the greatest common divisor (Euclid's algorithm run to the end)", loc(gcd),
-               "evaluated on %d integer pairs; the common period of the patterns is lcm = x*y/gcd" % len(rows), expected="math.gcd", found=wrong[:4])
+                hook = lambda name, n, ev: math.gcd(*[ev.ev(a) for a in n.args]) if name == "_gcd" else NotImplemented
+                oklcm = all(LoopEv({lps[0]: x, lps[1]: y}, None, hook).run(lcm.body) == x * y / math.gcd(x, y) for x in range(1, 25) for y in range(1, 25))
+            except (Unknown, Raised, TypeError):
+                oklcm = False
+        chk.expect(oklcm, "R-C20-1", "_lcm(x, y) = x*y / gcd(x, y)", loc(lcm), found=str(o[0].ret) if o else None)
+        rows = gcd_table(gcd)
+        wrong = [(x, y, v) for x, y, v in rows if v != math.gcd(x, y)]
+        chk.expect(not wrong, "R-C20-1", "_gcd(x, y) is the greatest common divisor (Euclid's algorithm run to the end)", loc(gcd),
+                   "evaluated on %d integer pairs; the common period of the patterns is lcm = x*y/gcd" % len(rows), expected="math.gcd", found=wrong[:4])
 
     # ---------------------------------------------------------------- R-C20-2 one clock for demands, R-C20-6 its time grid
-    ed = repo.func(HYDM, "expected_demand")
-    chk.fn(ed)
-    at_params = ["time", "category", "multiplier"]
-    if repo.has_func(ELEM, "Demands.at"):
-        at_params = [a.arg for a in repo.func(ELEM, "Demands.at").args.args if a.arg != "self"]
-    ex = MX()
-    outs = [o for o in ex.run(ed) if not o.raised]
-    ps = ex.sym("wn.options.time.pattern_start")
-    fact = {"clock": [], "mult": [], "cat": [], "grid": [], "defaults": [], "cut": [], "index": []}
-    seen = 0
-    dflt = {"start_time": sp.Integer(0), "end_time": ex.sym("wn.options.time.duration"), "timestep": ex.sym("wn.options.time.report_timestep")}
-    for o in outs:
-        ats = [e for e in o.events if e[0] == "call" and e[1].split("(")[0].endswith(".demand_timeseries_list.at")]
-        if len(ats) != 1:
-            continue
-        seen += 1
-        e = ats[0]
-        b = bind_args(at_params, e[2][1], e[2][2])
-        try:
-            tv = sp.expand(ex.S(b.get("time")))
-        except ExtractError:
-            tv = sp.Symbol("?")
-        rest = tv - ps
-        lv = [(nm, it) for nm, i, it in loop_vars(e[5])]
-        tl = [it for nm, it in lv if rest.is_Symbol and nm == rest.name]
-        fact["clock"].append((bool(tl), str(tv)))
-        mult = b.get("multiplier")
-        fact["mult"].append((isinstance(mult, Opaque) and mult.text == "wn.options.hydraulic.demand_multiplier", mult))
-        fact["cat"].append((b.get("category") == Opaque("category"), b.get("category")))
-        # the grid the time variable runs over
-        ar = ev_calls(o, "np.arange")
-        if not ar:
-            raise ExtractError("expected_demand: time grid (np.arange) not found")
-        a = bind_args(["start", "stop", "step"], ar[0][2][1], ar[0][2][2])
-        if not all(k in a for k in ("start", "stop", "step")):
-            raise ExtractError("expected_demand: np.arange(start, stop, step) expected, found %s" % ar[0][1])
-        try:
-            s0, u0, p0 = ex.S(a["start"]), ex.S(a["stop"]), ex.S(a["step"])
-        except ExtractError:
-            raise ExtractError("expected_demand: arguments of np.arange not arithmetic: %s" % ar[0][1])
-        it_text = tl[0] if tl else None
-        itv = ex.objs.get(it_text)
-        if isinstance(o.ret, Opaque):
-            df = [c for c in ev_calls(o, "pd.DataFrame") if c[1] == o.ret.text]
-            if df:
-                ix = bind_args(["data", "index"], df[0][2][1], df[0][2][2]).get("index")
-                fact["index"].append((it_text is not None and ix is not None and ex.text(ix) == it_text, ex.text(ix)))
-        # decided for every combination of the three optional arguments being None / given that can take this path
-        # (a default may be applied by an if statement -- a path condition -- or by a conditional expression -- a Piecewise)
-        for sn in (True, False):
-            for en in (True, False):
-                for tn in (True, False):
-                    none = {"start_time": sn, "end_time": en, "timestep": tn}
-                    if not consistent(o.conds, none):
-                        continue
-                    want = {p: (dflt[p] if none[p] else ex.sym(p)) for p in none}
-                    s_, u_, p_ = [resolve_pieces(ex, x, none) for x in (s0, u0, p0)]
-                    okg = is_zero(s_ - want["start_time"]) and is_zero(p_ - want["timestep"]) and (is_zero(u_ - want["end_time"] - want["timestep"]) or is_zero(u_ - want["end_time"] - 1))
-                    fact["defaults" if (sn or en or tn) else "grid"].append((okg, ar[0][1]))
-                    # cut: the iterated grid is <arange>[<arange> <= end]
-                    cut = False
-                    if itv is not None and isinstance(itv.base, Opaque) and itv.base.text == ar[0][1] and isinstance(itv.key, Rel):
-                        k = itv.key
-                        lo, hi = (k.a, k.b) if k.op == "LtE" else (k.b, k.a) if k.op == "GtE" else (None, None)
-                        try:
-                            cut = isinstance(lo, Opaque) and lo.text == ar[0][1] and is_zero(resolve_pieces(ex, ex.S(hi), none) - want["end_time"])
-                        except ExtractError:
-                            cut = False
-                    overshoots = is_zero(u_ - want["end_time"] - want["timestep"]) and not cut
-                    if it_text is not None:          # (an unidentified time loop is already reported by the clock rule)
-                        fact["cut"].append((not overshoots, it_text))
-
-    def all_ok(k):
-        return bool(fact[k]) and all(x[0] for x in fact[k])
-
-    def first_bad(k):
-        return next((str(x[1]) for x in fact[k] if not x[0]), None)
-    chk.expect(seen == len(outs) and seen > 0, "R-C20-2", "expected_demand calls demand_timeseries_list.at", loc(ed), found="%d of %d paths" % (seen, len(outs)))
-    chk.expect(all_ok("clock"), "R-C20-2", "expected_demand evaluates demands at time + pattern_start (the simulator's clock)", loc(ed),
-               "WNTRSimulator requests demand_timeseries_list.at(sim_time + pattern_start); the metric must use the same clock to match the delivered demand",
-               expected="<time of the grid> + wn.options.time.pattern_start", found=first_bad("clock"))
-    chk.expect(all_ok("mult"), "R-C20-2", "expected_demand applies the global demand multiplier", loc(ed), found=first_bad("mult"))
-    chk.expect(all_ok("cat"), "R-C20-2", "expected_demand forwards the category filter", loc(ed), found=first_bad("cat"))
-    chk.expect(all_ok("grid") and (not fact["index"] or all_ok("index")), "R-C20-2", "expected_demand covers start_time..end_time inclusive in steps of timestep", loc(ed),
-               "the demands are evaluated on np.arange(start, end + step, step) and the table is indexed by the same times", found=first_bad("grid") or first_bad("index"))
-    chk.expect(all_ok("defaults"), "R-C20-2", "expected_demand defaults: 0 .. duration every report_timestep", loc(ed), found=first_bad("defaults"))
-    # other call sites in the package outside wntr/sim (wntr/sim is C01's rule)
-    extra = 0
-    for rel in repo.modules("wntr"):
-        if rel.startswith("wntr/sim/") or rel == HYDM:
-            continue
-        for c in calls(repo.tree(rel), attr="at"):
-            if isinstance(c.func.value, ast.Attribute) and c.func.value.attr == "demand_timeseries_list":
-                extra += 1
-                chk.expect("pattern_start" in unparse(c.args[0]) if c.args else False, "R-C20-2", "%s evaluates demands at time + pattern_start" % rel, loc(rel, c), found=unparse(c)[:100])
-    aed = repo.func(HYDM, "average_expected_demand")
-    chk.fn(aed)
-    ed_params = [a.arg for a in ed.args.args]
-    ex = MX(call_hook=pandas_hook)
-    outs = [x for x in ex.run(aed) if not x.raised]
-    okavg, okcat, okmean, found_avg = bool(outs), bool(outs), bool(outs), None
-    terms = []          # (value, guarded, pattern variable bound by iterating wn.patterns())
-    left_out = []
-    consts_ok = bool(outs)
-    for o in outs:
-        cs_ = ev_calls(o, "expected_demand")
-        lc = ev_calls(o, "_lcml") or [c for c in ev_calls(o, "reduce") if c[2][1] and ex.text(c[2][1][0]) == "_lcm"]
-        if not cs_ or not lc:
-            okavg = okcat = okmean = consts_ok = False
-            continue
-        b = bind_args(ed_params, cs_[0][2][1], cs_[0][2][2])
-        found_avg = [str(b.get(k)) for k in ("start_time", "end_time", "timestep")]
-        try:
-            start, end, step = ex.S(b.get("start_time")), ex.S(b.get("end_time")), ex.S(b.get("timestep"))
-            span = sp.simplify(end - start + step)
-            lcmv = [s for s in span.free_symbols]
-            span = span.replace(sp.Function("int"), lambda x: x)
-            okavg = okavg and is_zero(step - ex.sym("wn.options.time.pattern_timestep")) and len(lcmv) == 1 and lcmv[0].name == lc[0][1] and span == lcmv[0]
-        except ExtractError:
-            okavg = False
-        okcat = okcat and b.get("category") == Opaque("category")
-        try:
-            okmean = okmean and o.ret is not None and is_zero(ex.S(o.ret) - sp.Function("MEAN_axis0")(ex.sym(cs_[0][1])))
-        except ExtractError:
-            okmean = False
-        lst = lc[0][2][1][-1]
-        if not isinstance(lst, list):
-            raise ExtractError("average_expected_demand: list of pattern periods not found (argument of %s)" % lc[0][1][:40])
-        pvars = {nm: it for ev_ in o.events if ev_[0] == "loop" for nm, i, it in loop_vars([(ev_[1], ev_[2])]) if it == "wn.patterns()" and i == 1}
-        cons = []
-        for item in lst:
-            if isinstance(item, (int, float, sp.Number)):
-                cons.append(int(item) if item == int(item) else float(item))
+    with chk.part("R-C20-2 one clock for demands, R-C20-6 its time grid"):
+        ed = repo.func(HYDM, "expected_demand")
+        chk.fn(ed)
+        at_params = ["time", "category", "multiplier"]
+        if repo.has_func(ELEM, "Demands.at"):
+            at_params = [a.arg for a in repo.func(ELEM, "Demands.at").args.args if a.arg != "self"]
+        ex = MX()
+        outs = [o for o in ex.run(ed) if not o.raised]
+        ps = ex.sym("wn.options.time.pattern_start")
+        fact = {"clock": [], "mult": [], "cat": [], "grid": [], "defaults": [], "cut": [], "index": []}
+        seen = 0
+        dflt = {"start_time": sp.Integer(0), "end_time": ex.sym("wn.options.time.duration"), "timestep": ex.sym("wn.options.time.report_timestep")}
+        for o in outs:
+            ats = [e for e in o.events if e[0] == "call" and e[1].split("(")[0].endswith(".demand_timeseries_list.at")]
+            if len(ats) != 1:
                 continue
-            if isinstance(item, Comp):
-                val, cnds = item.elt, [(c, True) for c in item.conds]
-                pv = {nm: it for nm, i, it in loop_vars([(item.target, item.iter)]) if it == "wn.patterns()" and i == 1}
-            else:
-                val, cnds, pv = item, o.conds, pvars
+            seen += 1
+            e = ats[0]
+            b = bind_args(at_params, e[2][1], e[2][2])
             try:
-                val = ex.S(val)
+                tv = sp.expand(ex.S(b.get("time")))
             except ExtractError:
-                val = sp.Symbol("?" + ex.text(val))
-            var = [nm for nm in pv if val.has(ex.sym("len(%s.multipliers)" % nm))]
-            guarded = False
-            if var:
-                for t, v in cnds:
-                    ln = "len(%s.multipliers)" % var[0]
-                    if ln in t:
-                        r = tv_env(t, {ln: 0})
-                        if r is not None and r != bool(v):
-                            guarded = True          # the path cannot be taken by a pattern of length 0
-            terms.append((val, guarded, var[0] if var else None))
-        consts_ok = consts_ok and cons == [24 * 3600]
-        # every non-empty pattern of the model contributes: on each way through the loop over wn.patterns(), the conditions that mention the loop's variables may
-        # only separate empty from non-empty patterns -- a path that appends a term must be open to every non-empty pattern, a path that appends none
-        # must be impossible for a non-empty pattern
-        lvs = {}
-        for ev_ in o.events:
-            if ev_[0] == "loop":
-                for nm, i, it in loop_vars([(ev_[1], ev_[2])]):
-                    if it == "wn.patterns()":
-                        lvs[nm] = i
-        for item in lst:
-            if isinstance(item, Comp):
-                for nm, i, it in loop_vars([(item.target, item.iter)]):
-                    if it == "wn.patterns()":
-                        lvs[nm] = i
-        pat_terms = [item for item in lst if not isinstance(item, (int, float, sp.Number))]
+                tv = sp.Symbol("?")
+            rest = tv - ps
+            lv = [(nm, it) for nm, i, it in loop_vars(e[5])]
+            tl = [it for nm, it in lv if rest.is_Symbol and nm == rest.name]
+            fact["clock"].append((bool(tl), str(tv)))
+            mult = b.get("multiplier")
+            fact["mult"].append((isinstance(mult, Opaque) and mult.text == "wn.options.hydraulic.demand_multiplier", mult))
+            fact["cat"].append((b.get("category") == Opaque("category"), b.get("category")))
+            # the grid the time variable runs over
+            ar = ev_calls(o, "np.arange")
+            if not ar:
+                raise ExtractError("expected_demand: time grid (np.arange) not found")
+            a = bind_args(["start", "stop", "step"], ar[0][2][1], ar[0][2][2])
+            if not all(k in a for k in ("start", "stop", "step")):
+                raise ExtractError("expected_demand: np.arange(start, stop, step) expected, found %s" % ar[0][1])
+            try:
+                s0, u0, p0 = ex.S(a["start"]), ex.S(a["stop"]), ex.S(a["step"])
+            except ExtractError:
+                raise ExtractError("expected_demand: arguments of np.arange not arithmetic: %s" % ar[0][1])
+            it_text = tl[0] if tl else None
+            itv = ex.objs.get(it_text)
+            if isinstance(o.ret, Opaque):
+                df = [c for c in ev_calls(o, "pd.DataFrame") if c[1] == o.ret.text]
+                if df:
+                    ix = bind_args(["data", "index"], df[0][2][1], df[0][2][2]).get("index")
+                    fact["index"].append((it_text is not None and ix is not None and ex.text(ix) == it_text, ex.text(ix)))
+            # decided for every combination of the three optional arguments being None / given that can take this path
+            # (a default may be applied by an if statement -- a path condition -- or by a conditional expression -- a Piecewise)
+            for sn in (True, False):
+                for en in (True, False):
+                    for tn in (True, False):
+                        none = {"start_time": sn, "end_time": en, "timestep": tn}
+                        if not consistent(o.conds, none):
+                            continue
+                        want = {p: (dflt[p] if none[p] else ex.sym(p)) for p in none}
+                        s_, u_, p_ = [resolve_pieces(ex, x, none) for x in (s0, u0, p0)]
+                        okg = is_zero(s_ - want["start_time"]) and is_zero(p_ - want["timestep"]) and (is_zero(u_ - want["end_time"] - want["timestep"]) or is_zero(u_ - want["end_time"] - 1))
+                        fact["defaults" if (sn or en or tn) else "grid"].append((okg, ar[0][1]))
+                        # cut: the iterated grid is <arange>[<arange> <= end]
+                        cut = False
+                        if itv is not None and isinstance(itv.base, Opaque) and itv.base.text == ar[0][1] and isinstance(itv.key, Rel):
+                            k = itv.key
+                            lo, hi = (k.a, k.b) if k.op == "LtE" else (k.b, k.a) if k.op == "GtE" else (None, None)
+                            try:
+                                cut = isinstance(lo, Opaque) and lo.text == ar[0][1] and is_zero(resolve_pieces(ex, ex.S(hi), none) - want["end_time"])
+                            except ExtractError:
+                                cut = False
+                        overshoots = is_zero(u_ - want["end_time"] - want["timestep"]) and not cut
+                        if it_text is not None:          # (an unidentified time loop is already reported by the clock rule)
+                            fact["cut"].append((not overshoots, it_text))
 
-        def about_loop(t):
-            return any(re.search(r"(?<![\w.])%s\b" % re.escape(nm), t) for nm in lvs)
+        def all_ok(k):
+            return bool(fact[k]) and all(x[0] for x in fact[k])
 
-        def length_only(t, v, pvar):
-            ln = "len(%s.multipliers)" % pvar
-            return ln in t and all(tv_env(t, {ln: k}) == bool(v) for k in (1, 2, 7, 24))
-        pvar_ = [nm for nm, i in lvs.items() if i == 1]
-        if lvs and pvar_:
-            for item in (pat_terms or [None]):
-                cnds = [(c, True) for c in item.conds] if isinstance(item, Comp) else [(t, v) for t, v in o.conds if about_loop(t)]
-                if item is None:
-                    # no term on this path: some condition must exclude every non-empty pattern
-                    ln = "len(%s.multipliers)" % pvar_[0]
-                    shut = any(ln in t and all(tv_env(t, {ln: k}) not in (None, bool(v)) for k in (1, 2, 7, 24)) for t, v in cnds)
-                    if cnds and not shut:
-                        left_out.append("a pattern is skipped when %s" % " and ".join(("" if v else "not ") + "(%s)" % t for t, v in cnds))
+        def first_bad(k):
+            return next((str(x[1]) for x in fact[k] if not x[0]), None)
+        chk.expect(seen == len(outs) and seen > 0, "R-C20-2", "expected_demand calls demand_timeseries_list.at", loc(ed), found="%d of %d paths" % (seen, len(outs)))
+        chk.expect(all_ok("clock"), "R-C20-2", "expected_demand evaluates demands at time + pattern_start (the simulator's clock)", loc(ed),
+                   "WNTRSimulator requests demand_timeseries_list.at(sim_time + pattern_start); the metric must use the same clock to match the delivered demand",
+                   expected="<time of the grid> + wn.options.time.pattern_start", found=first_bad("clock"))
+        chk.expect(all_ok("mult"), "R-C20-2", "expected_demand applies the global demand multiplier", loc(ed), found=first_bad("mult"))
+        chk.expect(all_ok("cat"), "R-C20-2", "expected_demand forwards the category filter", loc(ed), found=first_bad("cat"))
+        chk.expect(all_ok("grid") and (not fact["index"] or all_ok("index")), "R-C20-2", "expected_demand covers start_time..end_time inclusive in steps of timestep", loc(ed),
+                   "the demands are evaluated on np.arange(start, end + step, step) and the table is indexed by the same times", found=first_bad("grid") or first_bad("index"))
+        chk.expect(all_ok("defaults"), "R-C20-2", "expected_demand defaults: 0 .. duration every report_timestep", loc(ed), found=first_bad("defaults"))
+        # other call sites in the package outside wntr/sim (wntr/sim is C01's rule)
+        extra = 0
+        for rel in repo.modules("wntr"):
+            if rel.startswith("wntr/sim/") or rel == HYDM:
+                continue
+            for c in calls(repo.tree(rel), attr="at"):
+                if isinstance(c.func.value, ast.Attribute) and c.func.value.attr == "demand_timeseries_list":
+                    extra += 1
+                    chk.expect("pattern_start" in unparse(c.args[0]) if c.args else False, "R-C20-2", "%s evaluates demands at time + pattern_start" % rel, loc(rel, c), found=unparse(c)[:100])
+        aed = repo.func(HYDM, "average_expected_demand")
+        chk.fn(aed)
+        ed_params = [a.arg for a in ed.args.args]
+        ex = MX(call_hook=pandas_hook)
+        outs = [x for x in ex.run(aed) if not x.raised]
+        okavg, okcat, okmean, found_avg = bool(outs), bool(outs), bool(outs), None
+        terms = []          # (value, guarded, pattern variable bound by iterating wn.patterns())
+        left_out = []
+        consts_ok = bool(outs)
+        for o in outs:
+            cs_ = ev_calls(o, "expected_demand")
+            lc = ev_calls(o, "_lcml") or [c for c in ev_calls(o, "reduce") if c[2][1] and ex.text(c[2][1][0]) == "_lcm"]
+            if not cs_ or not lc:
+                okavg = okcat = okmean = consts_ok = False
+                continue
+            b = bind_args(ed_params, cs_[0][2][1], cs_[0][2][2])
+            found_avg = [str(b.get(k)) for k in ("start_time", "end_time", "timestep")]
+            try:
+                start, end, step = ex.S(b.get("start_time")), ex.S(b.get("end_time")), ex.S(b.get("timestep"))
+                span = sp.simplify(end - start + step)
+                lcmv = [s for s in span.free_symbols]
+                span = span.replace(sp.Function("int"), lambda x: x)
+                okavg = okavg and is_zero(step - ex.sym("wn.options.time.pattern_timestep")) and len(lcmv) == 1 and lcmv[0].name == lc[0][1] and span == lcmv[0]
+            except ExtractError:
+                okavg = False
+            okcat = okcat and b.get("category") == Opaque("category")
+            try:
+                okmean = okmean and o.ret is not None and is_zero(ex.S(o.ret) - sp.Function("MEAN_axis0")(ex.sym(cs_[0][1])))
+            except ExtractError:
+                okmean = False
+            lst = lc[0][2][1][-1]
+            if not isinstance(lst, list):
+                raise ExtractError("average_expected_demand: list of pattern periods not found (argument of %s)" % lc[0][1][:40])
+            pvars = {nm: it for ev_ in o.events if ev_[0] == "loop" for nm, i, it in loop_vars([(ev_[1], ev_[2])]) if it == "wn.patterns()" and i == 1}
+            cons = []
+            for item in lst:
+                if isinstance(item, (int, float, sp.Number)):
+                    cons.append(int(item) if item == int(item) else float(item))
+                    continue
+                if isinstance(item, Comp):
+                    val, cnds = item.elt, [(c, True) for c in item.conds]
+                    pv = {nm: it for nm, i, it in loop_vars([(item.target, item.iter)]) if it == "wn.patterns()" and i == 1}
                 else:
-                    extra = [(t, v) for t, v in cnds if not length_only(t, v, pvar_[0])]
-                    if extra:
-                        left_out.append("a pattern counts only when %s" % " and ".join(("" if v else "not ") + "(%s)" % t for t, v in extra))
-    chk.expect(not left_out and bool(outs), "R-C20-2", "every non-empty pattern of the model enters the common period", loc(aed),
-               "the averaging window must be a whole number of periods of every pattern that can shape a demand; usage records are not a complete account of that (default pattern, "
-               "TimeSeries re-pointed directly), so no filter other than `the pattern has multipliers` may decide which patterns count", expected="no condition on the loop over wn.patterns() "
-               "other than len(multipliers) > 0", found=sorted(set(left_out))[:3] or None)
-    chk.expect(okavg, "R-C20-2", "average_expected_demand averages over exactly one common period (lcm of all pattern lengths and 24 h) in steps of pattern_timestep", loc(aed), found=found_avg)
-    chk.expect(okcat, "R-C20-2", "average_expected_demand forwards the category", loc(aed))
-    pt = ex.sym("wn.options.time.pattern_timestep")
-    okterms = bool(terms) and all(var is not None and is_zero(val - ex.sym("len(%s.multipliers)" % var) * pt) for val, g_, var in terms)
-    chk.expect(okterms and consts_ok, "R-C20-2", "the common period is built from every pattern's length (n * pattern_timestep) and 24 h", loc(aed),
-               found=[str(t[0]) for t in terms][:3])
-    chk.expect(okmean, "R-C20-2", "average_expected_demand is the mean over time", loc(aed))
+                    val, cnds, pv = item, o.conds, pvars
+                try:
+                    val = ex.S(val)
+                except ExtractError:
+                    val = sp.Symbol("?" + ex.text(val))
+                var = [nm for nm in pv if val.has(ex.sym("len(%s.multipliers)" % nm))]
+                guarded = False
+                if var:
+                    for t, v in cnds:
+                        ln = "len(%s.multipliers)" % var[0]
+                        if ln in t:
+                            r = tv_env(t, {ln: 0})
+                            if r is not None and r != bool(v):
+                                guarded = True          # the path cannot be taken by a pattern of length 0
+                terms.append((val, guarded, var[0] if var else None))
+            consts_ok = consts_ok and cons == [24 * 3600]
+            # every non-empty pattern of the model contributes: on each way through the loop over wn.patterns(), the conditions that mention the loop's variables may
+            # only separate empty from non-empty patterns -- a path that appends a term must be open to every non-empty pattern, a path that appends none
+            # must be impossible for a non-empty pattern
+            lvs = {}
+            for ev_ in o.events:
+                if ev_[0] == "loop":
+                    for nm, i, it in loop_vars([(ev_[1], ev_[2])]):
+                        if it == "wn.patterns()":
+                            lvs[nm] = i
+            for item in lst:
+                if isinstance(item, Comp):
+                    for nm, i, it in loop_vars([(item.target, item.iter)]):
+                        if it == "wn.patterns()":
+                            lvs[nm] = i
+            pat_terms = [item for item in lst if not isinstance(item, (int, float, sp.Number))]
+
+            def about_loop(t):
+                return any(re.search(r"(?<![\w.])%s\b" % re.escape(nm), t) for nm in lvs)
+
+            def length_only(t, v, pvar):
+                ln = "len(%s.multipliers)" % pvar
+                return ln in t and all(tv_env(t, {ln: k}) == bool(v) for k in (1, 2, 7, 24))
+            pvar_ = [nm for nm, i in lvs.items() if i == 1]
+            if lvs and pvar_:
+                for item in (pat_terms or [None]):
+                    cnds = [(c, True) for c in item.conds] if isinstance(item, Comp) else [(t, v) for t, v in o.conds if about_loop(t)]
+                    if item is None:
+                        # no term on this path: some condition must exclude every non-empty pattern
+                        ln = "len(%s.multipliers)" % pvar_[0]
+                        shut = any(ln in t and all(tv_env(t, {ln: k}) not in (None, bool(v)) for k in (1, 2, 7, 24)) for t, v in cnds)
+                        if cnds and not shut:
+                            left_out.append("a pattern is skipped when %s" % " and ".join(("" if v else "not ") + "(%s)" % t for t, v in cnds))
+                    else:
+                        extra = [(t, v) for t, v in cnds if not length_only(t, v, pvar_[0])]
+                        if extra:
+                            left_out.append("a pattern counts only when %s" % " and ".join(("" if v else "not ") + "(%s)" % t for t, v in extra))
+        chk.expect(not left_out and bool(outs), "R-C20-2", "every non-empty pattern of the model enters the common period", loc(aed),
+                   "the averaging window must be a whole number of periods of every pattern that can shape a demand; usage records are not a complete account of that (default pattern, "
+                   "TimeSeries re-pointed directly), so no filter other than `the pattern has multipliers` may decide which patterns count", expected="no condition on the loop over wn.patterns() "
+                   "other than len(multipliers) > 0", found=sorted(set(left_out))[:3] or None)
+        chk.expect(okavg, "R-C20-2", "average_expected_demand averages over exactly one common period (lcm of all pattern lengths and 24 h) in steps of pattern_timestep", loc(aed), found=found_avg)
+        chk.expect(okcat, "R-C20-2", "average_expected_demand forwards the category", loc(aed))
+        pt = ex.sym("wn.options.time.pattern_timestep")
+        okterms = bool(terms) and all(var is not None and is_zero(val - ex.sym("len(%s.multipliers)" % var) * pt) for val, g_, var in terms)
+        chk.expect(okterms and consts_ok, "R-C20-2", "the common period is built from every pattern's length (n * pattern_timestep) and 24 h", loc(aed),
+                   found=[str(t[0]) for t in terms][:3])
+        chk.expect(okmean, "R-C20-2", "average_expected_demand is the mean over time", loc(aed))
 
     # ---------------------------------------------------------------- R-C20-3 efficiency convention
-    # AST pattern match, nothing evaluated: only the immediate parent BinOp of each load of global_efficiency (or of a single-assignment temporary holding
-    # it) is inspected, for a literal 100 / 100.0 / 0.01; a use that is not a direct BinOp operand is skipped
-    nuse = 0
-    for rel in repo.modules("wntr/metrics"):
-        t = repo.tree(rel)
-        for n in ast.walk(t):
-            if isinstance(n, ast.Attribute) and n.attr == "global_efficiency" and isinstance(n.ctx, ast.Load):
-                fn = n
-                while fn is not None and not isinstance(fn, ast.FunctionDef):
-                    fn = getattr(fn, "_parent", None)
-                uses = [n]
-                p = getattr(n, "_parent", None)
-                if isinstance(p, ast.Assign) and p.value is n and len(p.targets) == 1 and isinstance(p.targets[0], ast.Name) and fn is not None:
-                    # read once into a temporary: the arithmetic uses of the temporary are the uses of the option
-                    tmp = p.targets[0].id
-                    if sum(1 for m in ast.walk(fn) if isinstance(m, ast.Name) and m.id == tmp and isinstance(m.ctx, ast.Store)) == 1:
-                        uses = [m for m in ast.walk(fn) if isinstance(m, ast.Name) and m.id == tmp and isinstance(m.ctx, ast.Load)]
-                for u in uses:
-                    p = getattr(u, "_parent", None)
-                    if not isinstance(p, ast.BinOp):
-                        continue
-                    nuse += 1
-                    okp = (isinstance(p.op, ast.Div) and p.left is u and const(p.right) in (100, 100.0)) or (isinstance(p.op, ast.Mult) and const(p.right if p.left is u else p.left) == 0.01)
-                    shown = norm(p) if u is n else norm(p).replace(unparse(u), unparse(n))
-                    chk.expect(okp, "R-C20-3", "%s: global_efficiency (a percentage) is divided by 100 before use [%s]" % (fn.name if fn else rel, shown[:70]), loc(rel, u),
-                               "options.energy.global_efficiency = 75 means 75 %; using the raw value makes the power 100 times too small", expected="global_efficiency / 100", found=shown)
-    chk.floor("R-C20-3", 3, count=nuse)
+    with chk.part("R-C20-3 efficiency convention"):
+        # AST pattern match, nothing evaluated: only the immediate parent BinOp of each load of global_efficiency (or of a single-assignment temporary holding
+        # it) is inspected, for a literal 100 / 100.0 / 0.01; a use that is not a direct BinOp operand is skipped
+        nuse = 0
+        for rel in repo.modules("wntr/metrics"):
+            t = repo.tree(rel)
+            for n in ast.walk(t):
+                if isinstance(n, ast.Attribute) and n.attr == "global_efficiency" and isinstance(n.ctx, ast.Load):
+                    fn = n
+                    while fn is not None and not isinstance(fn, ast.FunctionDef):
+                        fn = getattr(fn, "_parent", None)
+                    uses = [n]
+                    p = getattr(n, "_parent", None)
+                    if isinstance(p, ast.Assign) and p.value is n and len(p.targets) == 1 and isinstance(p.targets[0], ast.Name) and fn is not None:
+                        # read once into a temporary: the arithmetic uses of the temporary are the uses of the option
+                        tmp = p.targets[0].id
+                        if sum(1 for m in ast.walk(fn) if isinstance(m, ast.Name) and m.id == tmp and isinstance(m.ctx, ast.Store)) == 1:
+                            uses = [m for m in ast.walk(fn) if isinstance(m, ast.Name) and m.id == tmp and isinstance(m.ctx, ast.Load)]
+                    for u in uses:
+                        p = getattr(u, "_parent", None)
+                        if not isinstance(p, ast.BinOp):
+                            continue
+                        nuse += 1
+                        okp = (isinstance(p.op, ast.Div) and p.left is u and const(p.right) in (100, 100.0)) or (isinstance(p.op, ast.Mult) and const(p.right if p.left is u else p.left) == 0.01)
+                        shown = norm(p) if u is n else norm(p).replace(unparse(u), unparse(n))
+                        chk.expect(okp, "R-C20-3", "%s: global_efficiency (a percentage) is divided by 100 before use [%s]" % (fn.name if fn else rel, shown[:70]), loc(rel, u),
+                                   "options.energy.global_efficiency = 75 means 75 %; using the raw value makes the power 100 times too small", expected="global_efficiency / 100", found=shown)
+        chk.floor("R-C20-3", 3, count=nuse)
 
     # ---------------------------------------------------------------- R-C20-4 formulas
-    def head_gain_ok(ex, v, lvars):
-        """v == head at <pump>.end_node_name - head at <pump>.start_node_name for a pump variable bound by the enclosing loop"""
-        for nm in lvars:
-            if is_zero(v - (ex.sym("head.loc[(:, %s.end_node_name)]" % nm) - ex.sym("head.loc[(:, %s.start_node_name)]" % nm))):
-                return True
-        return False
+    with chk.part("R-C20-4 formulas"):
+        def head_gain_ok(ex, v, lvars):
+            """v == head at <pump>.end_node_name - head at <pump>.start_node_name for a pump variable bound by the enclosing loop"""
+            for nm in lvars:
+                if is_zero(v - (ex.sym("head.loc[(:, %s.end_node_name)]" % nm) - ex.sym("head.loc[(:, %s.start_node_name)]" % nm))):
+                    return True
+            return False
 
-    pp = repo.func(ECON, "pump_power")
-    chk.fn(pp)
-    ex = MX(call_hook=pandas_hook)
-    outs = [o for o in ex.run(pp) if not o.raised]
-    okp = False
-    okh = None
-    for o in outs:
-        if o.ret is None:
-            continue
-        r = ex.S(o.ret)
-        st = [e for e in o.events if e[0] == "store" and len(e) > 5 and e[5] and e[5][-1][1] == "wn.pumps()" and isinstance(e[2], sp.Basic)]
-        hsyms = set()
-        for e in st:
-            base = e[6]
-            if isinstance(base, Opaque) and base.text.endswith(".loc"):
-                hsyms.add(ex.sym(base.text[:-4]))
-            elif isinstance(base, Opaque):
-                hsyms.add(ex.sym(base.text))
-        esyms = set()
-        for c in ev_calls(o, "pd.DataFrame"):
-            data = bind_args(["data", "index", "columns"], c[2][1], c[2][2]).get("data")
-            if isinstance(data, dict) and data:
-                esyms.add(ex.sym(c[1]))
-        okp = okp or any(is_zero(r - 9810 * h * ex.sym("flowrate") / e_) for h in hsyms for e_ in esyms if h in r.free_symbols and e_ in r.free_symbols)
-        if st:
-            v = ex.S(st[0][2])
-            okh = head_gain_ok(ex, v, [nm for nm, i, it in loop_vars(st[0][5][-1:])])
-            chk.expect(okh, "R-C20-4", "pump_power: head gain = head at the pump's end node - head at its start node", loc(pp), found=str(v))
-    if okh is None:
-        chk.bad("R-C20-4", "pump_power: head gain = head at the pump's end node - head at its start node", loc(pp), found="no per-pump store located")
-    chk.expect(okp, "R-C20-4", "pump_power = 1000 * 9.81 * head gain * flow / efficiency", loc(pp), found=str(outs[0].ret)[:200] if outs else None)
-    pe = repo.func(ECON, "pump_energy")
-    ex = MX()
-    o = ex.run(pe)[0]
-    pc_ = [c for c in ev_calls(o, "pump_power") if [ex.text(x) for x in c[2][1]] + ["%s=%s" % (k, ex.text(v)) for k, v in c[2][2].items() if ex.text(v) != k] == [a.arg for a in pp.args.args][:len(c[2][1])]
-           and len(c[2][1]) + len(c[2][2]) == len(pp.args.args)]
-    chk.expect(bool(pc_) and o.ret is not None and is_zero(ex.S(o.ret) - ex.sym(pc_[0][1]) * ex.sym("wn.options.time.report_timestep")), "R-C20-4",
-               "pump_energy = pump_power * report_timestep (the spacing of the result rows)", loc(pe), found=str(o.ret))
-    pc = repo.func(ECON, "pump_cost")
-    chk.fn(pc)
-    ex = MX()
-    allp = ex.run(pc)
-    oks = [o for o in allp if not o.raised and o.ret is not None]
-    chk.expect(bool(oks) and all(len(ex.S(o.ret).free_symbols) == 2 and ex.sym("energy") in ex.S(o.ret).free_symbols and is_zero(sp.diff(ex.S(o.ret), ex.sym("energy"), 2)) and ex.S(o.ret).subs(ex.sym("energy"), 0) == 0 for o in oks), "R-C20-4",
-               "pump_cost = energy * price", loc(pc), found=str(oks[0].ret) if oks else None)
-    # which price: truth table over the None-ness of (own price, own pattern, global pattern), no demand charge
-    pv = sorted({nm for o in allp for ev_ in o.events if ev_[0] == "loop" for nm, i, it in loop_vars([(ev_[1], ev_[2])]) if it == "wn.pumps()" and i == 1})
-    if len(pv) != 1:
-        raise ExtractError("pump_cost: loop over wn.pumps() not found")
-    P, Q, G, D = pv[0] + ".energy_price", pv[0] + ".energy_pattern", "wn.options.energy.global_pattern", "wn.options.energy.demand_charge"
-    badrows = []
-    for pn in (True, False):
-        for qn in (True, False):
-            for gn in (True, False):
-                none = {P: pn, Q: qn, G: gn, D: True}
-                paths = [o for o in allp if consistent(o.conds, none)]
-                want = "raise" if not (qn and gn) else "wn.options.energy.global_price" if pn else P
-                got = set()
-                for o in paths:
-                    if o.raised:
-                        got.add("raise" if "NotImplementedError" in o.raised else o.raised[:40])
-                        continue
-                    elts = set()
-                    if o.ret is not None:
-                        for s in ex.S(o.ret).free_symbols:
-                            for c in ev_calls(o, "pd.DataFrame"):
-                                data = bind_args(["data", "index", "columns"], c[2][1], c[2][2]).get("data")
-                                if c[1] == s.name and isinstance(data, dict):
-                                    for k, v in data.items():
-                                        e_ = v.elt if isinstance(v, Comp) else v
-                                        if isinstance(e_, sp.Basic):
-                                            e_ = pick_piece(ex, e_, none)
-                                        elts.add(ex.text(e_) if not isinstance(e_, sp.Basic) else str(e_))
-                    got.add(" / ".join(sorted(elts)) or "<no price>")
-                if got != {want}:
-                    badrows.append(("price %s, pattern %s, global pattern %s" % tuple("None" if x else "set" for x in (pn, qn, gn)), sorted(got), want))
-    chk.expect(not badrows, "R-C20-4", "pump_cost uses the pump's own price if set, else the global price", loc(pc),
-               "decided for each of the 8 combinations of (energy_price, energy_pattern, global_pattern) being None / set; patterns are not supported and must raise; "
-               "a price of 0.0 is a price (only None falls back to the global price)", expected="own price if not None else global price", found=badrows[:3])
-    pop = repo.func(MISC, "population")
-    ex = MX(call_hook=pandas_hook)
-    o = ex.run(pop)[0]
-    ac = ev_calls(o, "average_expected_demand")
-    want = sp.Function("ROUND")(ex.sym(ac[0][1] if ac and [ex.text(x) for x in ac[0][2][1]] == ["wn"] and not ac[0][2][2] else "average_expected_demand(wn)") / ex.sym("R"))
-    chk.expect(is_zero(ex.S(o.ret) - want), "R-C20-4", "population = round(average expected demand / R)", loc(pop), found=str(o.ret))
-    wsa = repo.func(HYDM, "water_service_availability")
-    ex = MX(call_hook=pandas_hook)
-    o = ex.run(wsa)[0]
-    quot = ex.sym("demand") / ex.sym("expected_demand")
-    got_ = ex.S(o.ret)
-    chk.expect(is_zero(got_ - quot) or is_zero(got_ - sp.Function("INF_TO_NAN")(quot)), "R-C20-4", "water_service_availability = demand / expected demand", loc(wsa), found=str(o.ret))
-    chk.expect(is_zero(got_ - sp.Function("INF_TO_NAN")(quot)) or ".where(" in unparse(wsa), "R-C20-4", "water_service_availability is NaN (not +-inf) where the expected demand is 0, as documented",
-               loc(wsa), "demand.div(expected_demand) is +-inf for x / 0 with x != 0 and NaN only for 0 / 0; averages over junctions or time then become inf", found=str(o.ret))
+        pp = repo.func(ECON, "pump_power")
+        chk.fn(pp)
+        ex = MX(call_hook=pandas_hook)
+        outs = [o for o in ex.run(pp) if not o.raised]
+        okp = False
+        okh = None
+        for o in outs:
+            if o.ret is None:
+                continue
+            r = ex.S(o.ret)
+            st = [e for e in o.events if e[0] == "store" and len(e) > 5 and e[5] and e[5][-1][1] == "wn.pumps()" and isinstance(e[2], sp.Basic)]
+            hsyms = set()
+            for e in st:
+                base = e[6]
+                if isinstance(base, Opaque) and base.text.endswith(".loc"):
+                    hsyms.add(ex.sym(base.text[:-4]))
+                elif isinstance(base, Opaque):
+                    hsyms.add(ex.sym(base.text))
+            esyms = set()
+            for c in ev_calls(o, "pd.DataFrame"):
+                data = bind_args(["data", "index", "columns"], c[2][1], c[2][2]).get("data")
+                if isinstance(data, dict) and data:
+                    esyms.add(ex.sym(c[1]))
+            okp = okp or any(is_zero(r - 9810 * h * ex.sym("flowrate") / e_) for h in hsyms for e_ in esyms if h in r.free_symbols and e_ in r.free_symbols)
+            if st:
+                v = ex.S(st[0][2])
+                okh = head_gain_ok(ex, v, [nm for nm, i, it in loop_vars(st[0][5][-1:])])
+                chk.expect(okh, "R-C20-4", "pump_power: head gain = head at the pump's end node - head at its start node", loc(pp), found=str(v))
+        if okh is None:
+            chk.bad("R-C20-4", "pump_power: head gain = head at the pump's end node - head at its start node", loc(pp), found="no per-pump store located")
+        chk.expect(okp, "R-C20-4", "pump_power = 1000 * 9.81 * head gain * flow / efficiency", loc(pp), found=str(outs[0].ret)[:200] if outs else None)
+        pe = repo.func(ECON, "pump_energy")
+        ex = MX()
+        o = ex.run(pe)[0]
+        pc_ = [c for c in ev_calls(o, "pump_power") if [ex.text(x) for x in c[2][1]] + ["%s=%s" % (k, ex.text(v)) for k, v in c[2][2].items() if ex.text(v) != k] == [a.arg for a in pp.args.args][:len(c[2][1])]
+               and len(c[2][1]) + len(c[2][2]) == len(pp.args.args)]
+        chk.expect(bool(pc_) and o.ret is not None and is_zero(ex.S(o.ret) - ex.sym(pc_[0][1]) * ex.sym("wn.options.time.report_timestep")), "R-C20-4",
+                   "pump_energy = pump_power * report_timestep (the spacing of the result rows)", loc(pe), found=str(o.ret))
+        pc = repo.func(ECON, "pump_cost")
+        chk.fn(pc)
+        ex = MX()
+        allp = ex.run(pc)
+        oks = [o for o in allp if not o.raised and o.ret is not None]
+        chk.expect(bool(oks) and all(len(ex.S(o.ret).free_symbols) == 2 and ex.sym("energy") in ex.S(o.ret).free_symbols and is_zero(sp.diff(ex.S(o.ret), ex.sym("energy"), 2)) and ex.S(o.ret).subs(ex.sym("energy"), 0) == 0 for o in oks), "R-C20-4",
+                   "pump_cost = energy * price", loc(pc), found=str(oks[0].ret) if oks else None)
+        # which price: truth table over the None-ness of (own price, own pattern, global pattern), no demand charge
+        pv = sorted({nm for o in allp for ev_ in o.events if ev_[0] == "loop" for nm, i, it in loop_vars([(ev_[1], ev_[2])]) if it == "wn.pumps()" and i == 1})
+        if len(pv) != 1:
+            raise ExtractError("pump_cost: loop over wn.pumps() not found")
+        P, Q, G, D = pv[0] + ".energy_price", pv[0] + ".energy_pattern", "wn.options.energy.global_pattern", "wn.options.energy.demand_charge"
+        badrows = []
+        for pn in (True, False):
+            for qn in (True, False):
+                for gn in (True, False):
+                    none = {P: pn, Q: qn, G: gn, D: True}
+                    paths = [o for o in allp if consistent(o.conds, none)]
+                    want = "raise" if not (qn and gn) else "wn.options.energy.global_price" if pn else P
+                    got = set()
+                    for o in paths:
+                        if o.raised:
+                            got.add("raise" if "NotImplementedError" in o.raised else o.raised[:40])
+                            continue
+                        elts = set()
+                        if o.ret is not None:
+                            for s in ex.S(o.ret).free_symbols:
+                                for c in ev_calls(o, "pd.DataFrame"):
+                                    data = bind_args(["data", "index", "columns"], c[2][1], c[2][2]).get("data")
+                                    if c[1] == s.name and isinstance(data, dict):
+                                        for k, v in data.items():
+                                            e_ = v.elt if isinstance(v, Comp) else v
+                                            if isinstance(e_, sp.Basic):
+                                                e_ = pick_piece(ex, e_, none)
+                                            elts.add(ex.text(e_) if not isinstance(e_, sp.Basic) else str(e_))
+                        got.add(" / ".join(sorted(elts)) or "<no price>")
+                    if got != {want}:
+                        badrows.append(("price %s, pattern %s, global pattern %s" % tuple("None" if x else "set" for x in (pn, qn, gn)), sorted(got), want))
+        chk.expect(not badrows, "R-C20-4", "pump_cost uses the pump's own price if set, else the global price", loc(pc),
+                   "decided for each of the 8 combinations of (energy_price, energy_pattern, global_pattern) being None / set; patterns are not supported and must raise; "
+                   "a price of 0.0 is a price (only None falls back to the global price)", expected="own price if not None else global price", found=badrows[:3])
+        pop = repo.func(MISC, "population")
+        ex = MX(call_hook=pandas_hook)
+        o = ex.run(pop)[0]
+        ac = ev_calls(o, "average_expected_demand")
+        want = sp.Function("ROUND")(ex.sym(ac[0][1] if ac and [ex.text(x) for x in ac[0][2][1]] == ["wn"] and not ac[0][2][2] else "average_expected_demand(wn)") / ex.sym("R"))
+        chk.expect(is_zero(ex.S(o.ret) - want), "R-C20-4", "population = round(average expected demand / R)", loc(pop), found=str(o.ret))
+        wsa = repo.func(HYDM, "water_service_availability")
+        ex = MX(call_hook=pandas_hook)
+        o = ex.run(wsa)[0]
+        quot = ex.sym("demand") / ex.sym("expected_demand")
+        got_ = ex.S(o.ret)
+        chk.expect(is_zero(got_ - quot) or is_zero(got_ - sp.Function("INF_TO_NAN")(quot)), "R-C20-4", "water_service_availability = demand / expected demand", loc(wsa), found=str(o.ret))
+        chk.expect(is_zero(got_ - sp.Function("INF_TO_NAN")(quot)) or ".where(" in unparse(wsa), "R-C20-4", "water_service_availability is NaN (not +-inf) where the expected demand is 0, as documented",
+                   loc(wsa), "demand.div(expected_demand) is +-inf for x / 0 with x != 0 and NaN only for 0 / 0; averages over junctions or time then become inf", found=str(o.ret))
     # ---------------------------------------------------------------- R-C20-6 time grid and period of the expected-demand metrics
-    if fact["cut"] or all_ok("clock"):
-        chk.expect(all_ok("cut"), "R-C20-6", "expected_demand evaluates no time beyond end_time", loc(ed),
-                   "np.arange(start, end + step, step) includes one step past end_time whenever the span is not a multiple of the timestep: the table has a row the simulator never reports "
-                   "(duration 10 h, report step 3 h: 43200 s > 36000 s)", expected="grid cut at end_time", found=first_bad("cut"))
-    chk.expect(bool(terms) and all(g_ for v_, g_, var in terms), "R-C20-6", "average_expected_demand leaves patterns without multipliers out of the common period", loc(aed),
-               "an empty pattern is legal (the constant 1.0); its length 0 makes lcm(...) = 0, the averaging window empty and every average NaN", expected="if len(pattern.multipliers) > 0",
-               found=[str(v_) for v_, g_, var in terms if not g_][:2])
-    td = repo.func(HYDM, "todini_index")
-    chk.fn(td)
-    ex = MX(call_hook=pandas_hook)
-    o = ex.run(td)[0]
-    env = {k: Opaque(k) for k in ("head", "pressure", "demand", "flowrate", "wn", "Pstar")}
-    J = "wn.junction_name_list"
-    refx = SymExec(call_hook=pandas_hook)
-    refx.syms = ex.syms
-    Pout = "(demand.loc[:,%s]*head.loc[:,%s])" % (J, J)
-    Pexp = "(demand.loc[:,%s]*(Pstar+(head.loc[:,%s]-pressure.loc[:,%s])))" % (J, J, J)
-    Pres = "(-demand.loc[:,wn.reservoir_name_list]*head.loc[:,wn.reservoir_name_list])"
-    want = ref(refx, "(%s.sum(axis=1) - %s.sum(axis=1))" % (Pout, Pexp), env)
-    got = ex.S(o.ret)
-    num, den = sp.fraction(sp.together(got))
-    chk.expect(is_zero(num - want) or is_zero(num + want), "R-C20-4", "todini_index numerator = sum(demand*head) - sum(demand*(Pstar + elevation)) over junctions", loc(td), found=str(num)[:200])
-    wres = ref(refx, "%s.sum(axis=1)" % Pres, env)
-    wexp = ref(refx, "%s.sum(axis=1)" % Pexp, env)
-    rest = sp.simplify(den - wres + wexp) if is_zero(num - want) else sp.simplify(-den - wres + wexp)
-    okpump = isinstance(rest, sp.Function) and rest.func.__name__.startswith("SUM_axis") and rest.args[0].has(sp.Abs) and rest.args[0].has(ex.sym("flowrate.loc[(:, wn.pump_name_list)]"))
-    chk.expect(okpump, "R-C20-4", "todini_index denominator = reservoir power + pump power (flow * |head gain|) - required power", loc(td), found=str(den)[:250])
-    hs = [e for e in o.events if e[0] == "store" and len(e) > 5 and e[5] and e[5][-1][1] == "wn.pumps()" and isinstance(e[2], sp.Basic)]
-    chk.expect(bool(hs) and head_gain_ok(ex, ex.S(hs[0][2]), [nm for nm, i, it in loop_vars(hs[0][5][-1:])]) and
-               any(ex.text(hs[0][7]) == nm and i == 0 for nm, i, it in loop_vars(hs[0][5][-1:])), "R-C20-4", "todini_index pump head gain = end head - start head", loc(td),
-               found=str(hs[0][2]) if hs else None)
-    mri = repo.func(HYDM, "modified_resilience_index")
-    ex = MX(call_hook=pandas_hook)
-    seenm = set()
-    for o in ex.run(mri):
-        if o.raised or o.ret is None:
-            continue
-        cT, cF = consistent_env(o.conds, {"per_junction": True}), consistent_env(o.conds, {"per_junction": False})
-        if not cT and not cF:
-            continue        # infeasible combination of the two tests of the flag
-        pj = [True] if cT and not cF else [False] if cF and not cT else []
-        env = {k: Opaque(k) for k in ("pressure", "elevation", "Pstar", "demand")}
+    with chk.part("R-C20-6 time grid and period of the expected-demand metrics"):
+        if fact["cut"] or all_ok("clock"):
+            chk.expect(all_ok("cut"), "R-C20-6", "expected_demand evaluates no time beyond end_time", loc(ed),
+                       "np.arange(start, end + step, step) includes one step past end_time whenever the span is not a multiple of the timestep: the table has a row the simulator never reports "
+                       "(duration 10 h, report step 3 h: 43200 s > 36000 s)", expected="grid cut at end_time", found=first_bad("cut"))
+        chk.expect(bool(terms) and all(g_ for v_, g_, var in terms), "R-C20-6", "average_expected_demand leaves patterns without multipliers out of the common period", loc(aed),
+                   "an empty pattern is legal (the constant 1.0); its length 0 makes lcm(...) = 0, the averaging window empty and every average NaN", expected="if len(pattern.multipliers) > 0",
+                   found=[str(v_) for v_, g_, var in terms if not g_][:2])
+        td = repo.func(HYDM, "todini_index")
+        chk.fn(td)
+        ex = MX(call_hook=pandas_hook)
+        o = ex.run(td)[0]
+        env = {k: Opaque(k) for k in ("head", "pressure", "demand", "flowrate", "wn", "Pstar")}
+        J = "wn.junction_name_list"
         refx = SymExec(call_hook=pandas_hook)
         refx.syms = ex.syms
-        if pj and pj[0]:
-            want = ref(refx, "((pressure+elevation) - (Pstar+elevation))/(Pstar+elevation)", env)
-            seenm.add("per")
-        elif pj:
-            want = ref(refx, "((demand*(pressure+elevation)).sum(axis=1) - (demand*(Pstar+elevation)).sum(axis=1))/(demand*(Pstar+elevation)).sum(axis=1)", env)
-            seenm.add("sys")
-        else:
-            continue
-        chk.expect(is_zero(ex.S(o.ret) - want), "R-C20-4", "modified_resilience_index (%s) = (available - required power) / required power" % ("per junction" if pj[0] else "system"), loc(mri), found=str(o.ret)[:200])
-    chk.expect(seenm == {"per", "sys"}, "R-C20-4", "modified_resilience_index: both modes located", loc(mri), found=sorted(seenm))
-    tcap = repo.func(HYDM, "tank_capacity")
-    ex = MX()
-    o = ex.run(tcap)[0]
-    st = [e for e in o.events if e[0] == "store" and len(e) > 5 and e[5] and isinstance(e[2], sp.Basic)]
-    okt = False
-    if st:
-        lv = loop_vars(st[0][5][-1:])
-        it = st[0][5][-1][1]
-        # the tank object of the iteration: 2nd loop variable over the (name, tank) registry iterator, or wn.get_node(name) over the name list
-        pair = None
-        if it == "wn.tank_name_list" and len(lv) == 1:
-            pair = (lv[0][0], "wn.get_node(%s)" % lv[0][0])
-        elif it in ("wn.tanks()", "wn.nodes(Tank)", "wn.nodes(wntr.network.Tank)", "wn.nodes(wntr.network.elements.Tank)") and len(lv) == 2:
-            pair = (lv[0][0], lv[1][0])
-        if pair:
-            nm, tk = pair
-            okt = ex.text(st[0][7]) == nm and is_zero(ex.S(st[0][2]) - ex.sym("%s.get_volume(pressure[%s])" % (tk, nm)) / ex.sym("%s.get_volume(%s.max_level)" % (tk, tk)))
-    chk.expect(okt, "R-C20-4", "tank_capacity = V(level) / V(max_level), level = tank pressure", loc(tcap), found=str(st[0][2]) if st else None)
+        Pout = "(demand.loc[:,%s]*head.loc[:,%s])" % (J, J)
+        Pexp = "(demand.loc[:,%s]*(Pstar+(head.loc[:,%s]-pressure.loc[:,%s])))" % (J, J, J)
+        Pres = "(-demand.loc[:,wn.reservoir_name_list]*head.loc[:,wn.reservoir_name_list])"
+        want = ref(refx, "(%s.sum(axis=1) - %s.sum(axis=1))" % (Pout, Pexp), env)
+        got = ex.S(o.ret)
+        num, den = sp.fraction(sp.together(got))
+        chk.expect(is_zero(num - want) or is_zero(num + want), "R-C20-4", "todini_index numerator = sum(demand*head) - sum(demand*(Pstar + elevation)) over junctions", loc(td), found=str(num)[:200])
+        wres = ref(refx, "%s.sum(axis=1)" % Pres, env)
+        wexp = ref(refx, "%s.sum(axis=1)" % Pexp, env)
+        rest = sp.simplify(den - wres + wexp) if is_zero(num - want) else sp.simplify(-den - wres + wexp)
+        okpump = isinstance(rest, sp.Function) and rest.func.__name__.startswith("SUM_axis") and rest.args[0].has(sp.Abs) and rest.args[0].has(ex.sym("flowrate.loc[(:, wn.pump_name_list)]"))
+        chk.expect(okpump, "R-C20-4", "todini_index denominator = reservoir power + pump power (flow * |head gain|) - required power", loc(td), found=str(den)[:250])
+        hs = [e for e in o.events if e[0] == "store" and len(e) > 5 and e[5] and e[5][-1][1] == "wn.pumps()" and isinstance(e[2], sp.Basic)]
+        chk.expect(bool(hs) and head_gain_ok(ex, ex.S(hs[0][2]), [nm for nm, i, it in loop_vars(hs[0][5][-1:])]) and
+                   any(ex.text(hs[0][7]) == nm and i == 0 for nm, i, it in loop_vars(hs[0][5][-1:])), "R-C20-4", "todini_index pump head gain = end head - start head", loc(td),
+                   found=str(hs[0][2]) if hs else None)
+        mri = repo.func(HYDM, "modified_resilience_index")
+        ex = MX(call_hook=pandas_hook)
+        seenm = set()
+        for o in ex.run(mri):
+            if o.raised or o.ret is None:
+                continue
+            cT, cF = consistent_env(o.conds, {"per_junction": True}), consistent_env(o.conds, {"per_junction": False})
+            if not cT and not cF:
+                continue        # infeasible combination of the two tests of the flag
+            pj = [True] if cT and not cF else [False] if cF and not cT else []
+            env = {k: Opaque(k) for k in ("pressure", "elevation", "Pstar", "demand")}
+            refx = SymExec(call_hook=pandas_hook)
+            refx.syms = ex.syms
+            if pj and pj[0]:
+                want = ref(refx, "((pressure+elevation) - (Pstar+elevation))/(Pstar+elevation)", env)
+                seenm.add("per")
+            elif pj:
+                want = ref(refx, "((demand*(pressure+elevation)).sum(axis=1) - (demand*(Pstar+elevation)).sum(axis=1))/(demand*(Pstar+elevation)).sum(axis=1)", env)
+                seenm.add("sys")
+            else:
+                continue
+            chk.expect(is_zero(ex.S(o.ret) - want), "R-C20-4", "modified_resilience_index (%s) = (available - required power) / required power" % ("per junction" if pj[0] else "system"), loc(mri), found=str(o.ret)[:200])
+        chk.expect(seenm == {"per", "sys"}, "R-C20-4", "modified_resilience_index: both modes located", loc(mri), found=sorted(seenm))
+        tcap = repo.func(HYDM, "tank_capacity")
+        ex = MX()
+        o = ex.run(tcap)[0]
+        st = [e for e in o.events if e[0] == "store" and len(e) > 5 and e[5] and isinstance(e[2], sp.Basic)]
+        okt = False
+        if st:
+            lv = loop_vars(st[0][5][-1:])
+            it = st[0][5][-1][1]
+            # the tank object of the iteration: 2nd loop variable over the (name, tank) registry iterator, or wn.get_node(name) over the name list
+            pair = None
+            if it == "wn.tank_name_list" and len(lv) == 1:
+                pair = (lv[0][0], "wn.get_node(%s)" % lv[0][0])
+            elif it in ("wn.tanks()", "wn.nodes(Tank)", "wn.nodes(wntr.network.Tank)", "wn.nodes(wntr.network.elements.Tank)") and len(lv) == 2:
+                pair = (lv[0][0], lv[1][0])
+            if pair:
+                nm, tk = pair
+                okt = ex.text(st[0][7]) == nm and is_zero(ex.S(st[0][2]) - ex.sym("%s.get_volume(pressure[%s])" % (tk, nm)) / ex.sym("%s.get_volume(%s.max_level)" % (tk, tk)))
+        chk.expect(okt, "R-C20-4", "tank_capacity = V(level) / V(max_level), level = tank pressure", loc(tcap), found=str(st[0][2]) if st else None)
 
     # ---------------------------------------------------------------- annual totals: look-ups (R-C20-5) and the maximum pump power (R-C20-4)
-    anc = repo.func(ECON, "annual_network_cost")
-    ghg = repo.func(ECON, "annual_ghg_emissions")
-    chk.fn(anc, ghg)
-    PIPES, TANKS, VALVES = ("wn.links(Pipe)", "wn.pipes()"), ("wn.nodes(Tank)", "wn.tanks()"), ("wn.links(Valve)", "wn.valves()")
-    tables = ("tank_cost", "pipe_cost", "prv_cost", "pump_cost", "pipe_ghg")
+    with chk.part("annual totals: look-ups (R-C20-5) and the maximum pump power (R-C20-4)"):
+        anc = repo.func(ECON, "annual_network_cost")
+        ghg = repo.func(ECON, "annual_ghg_emissions")
+        chk.fn(anc, ghg)
+        PIPES, TANKS, VALVES = ("wn.links(Pipe)", "wn.pipes()"), ("wn.nodes(Tank)", "wn.tanks()"), ("wn.links(Valve)", "wn.valves()")
+        tables = ("tank_cost", "pipe_cost", "prv_cost", "pump_cost", "pipe_ghg")
 
-    def given(txt, test, st):     # the tables are passed in: keep them symbolic
-        for t in tables:
-            r = tv_text(txt, {t: False})
-            if r is not None:
-                return r
-        return None
-    nsel = 0
-    okpm, foundpm = None, None
-    sums_ok, sums_found = True, None
-    for fn, label in ((anc, "annual_network_cost"), (ghg, "annual_ghg_emissions")):
-        ex = MX(call_hook=pandas_hook, assume=lambda t: {"positive": True}, test_hook=given)
-        paths = [o for o in ex.run(fn) if not o.raised and o.ret is not None]
-        if not paths:
-            raise ExtractError("%s: no returning path" % label)
-        seen_sel = {}
-        seen_kinds = set()
-        for o in paths:
-            lk = lookups(ex, o, ex.S(o.ret))
-            walked = [ev_[2] for ev_ in o.events if ev_[0] == "loop"]
-            got = []
-            eff = ex.sym("wn.options.energy.global_efficiency")
-            for d in lk:
-                var2 = [nm for nm, i, it in d["vars"] if i == 1]
-                v2 = var2[0] if var2 else "?"
-                tab, val, lp = d["table"], d["value"], d["loop"]
-                holds = lambda word: any(word in t and v for t, v in o.conds)        # the path is restricted by a test naming the element class
-                kind = None
-                okv = False
-                if tab in ("pipe_cost", "pipe_ghg"):
-                    kind = "pipe"
-                    okv = tab == ("pipe_cost" if fn is anc else "pipe_ghg") and lp in PIPES and val is not None and is_zero(val - ex.sym(v2 + ".diameter")) and is_zero(d["mult"] - ex.sym(v2 + ".length"))
-                elif tab == "tank_cost":
-                    kind = "tank"
-                    okv = lp in TANKS and val is not None and val.has(ex.sym(v2 + ".max_level")) and d["mult"] == 1
-                elif tab == "pump_cost" and val is not None and any(".get_head_curve_coefficients()" in s_.name for s_ in val.free_symbols):
-                    kind = "head pump"
-                    okv = d["mult"] == 1 and (lp == "wn.head_pumps()" or (lp == "wn.pumps()" and (holds("HeadPump") or holds("'HEAD'"))))
-                    A, B_, C = [ex.sym("%s.get_head_curve_coefficients()[%d]" % (v2, i)) for i in range(3)]
-                    q = sp.exp(sp.log(A / (B_ * (C + 1))) / C)
-                    wantp = sp.Rational("9.81") * 1000 * q * (A - B_ * q ** C)
-                    okpm = (okpm is not False) and (is_zero(val * eff - wantp) or is_zero(val * eff / 100 - wantp) or is_zero(val - wantp))
-                    foundpm = str(val)[:160]
-                elif tab == "pump_cost":
-                    kind = "power pump"
-                    okv = d["mult"] == 1 and (lp == "wn.power_pumps()" or (lp == "wn.pumps()" and (holds("PowerPump") or holds("'POWER'")))) and val is not None and \
-                        (is_zero(val * eff - ex.sym(v2 + ".power")) or is_zero(val * eff / 100 - ex.sym(v2 + ".power")))
-                elif tab == "prv_cost":
-                    kind = "PRV"
-                    vt = v2 + ".valve_type"
-                    isprv = lp == "wn.prvs()" or (any(tv_env(t, {vt: "PRV"}) is not None for t, v in o.conds) and consistent_env(o.conds, {vt: "PRV"}) and not consistent_env(o.conds, {vt: "TCV"}))
-                    okv = (lp in VALVES or lp == "wn.prvs()") and val is not None and is_zero(val - ex.sym(v2 + ".diameter")) and d["mult"] == 1 and isprv
-                got.append(kind or d["text"][:40])
-                key = kind or d["text"][:40]
-                seen_kinds.add(key)
-                prev = seen_sel.get(key, (True, True, ""))
-                seen_sel[key] = (prev[0] and d["sel_ok"], prev[1] and okv, d["how"] or str(val)[:80] + " * " + str(d["mult"]) + " in " + str(lp))
+        def given(txt, test, st):     # the tables are passed in: keep them symbolic
+            for t in tables:
+                r = tv_text(txt, {t: False})
+                if r is not None:
+                    return r
+            return None
+        nsel = 0
+        okpm, foundpm = None, None
+        sums_ok, sums_found = True, None
+        for fn, label in ((anc, "annual_network_cost"), (ghg, "annual_ghg_emissions")):
+            ex = MX(call_hook=pandas_hook, assume=lambda t: {"positive": True}, test_hook=given)
+            paths = [o for o in ex.run(fn) if not o.raised and o.ret is not None]
+            if not paths:
+                raise ExtractError("%s: no returning path" % label)
+            seen_sel = {}
+            seen_kinds = set()
+            for o in paths:
+                lk = lookups(ex, o, ex.S(o.ret))
+                walked = [ev_[2] for ev_ in o.events if ev_[0] == "loop"]
+                got = []
+                eff = ex.sym("wn.options.energy.global_efficiency")
+                for d in lk:
+                    var2 = [nm for nm, i, it in d["vars"] if i == 1]
+                    v2 = var2[0] if var2 else "?"
+                    tab, val, lp = d["table"], d["value"], d["loop"]
+                    holds = lambda word: any(word in t and v for t, v in o.conds)        # the path is restricted by a test naming the element class
+                    kind = None
+                    okv = False
+                    if tab in ("pipe_cost", "pipe_ghg"):
+                        kind = "pipe"
+                        okv = tab == ("pipe_cost" if fn is anc else "pipe_ghg") and lp in PIPES and val is not None and is_zero(val - ex.sym(v2 + ".diameter")) and is_zero(d["mult"] - ex.sym(v2 + ".length"))
+                    elif tab == "tank_cost":
+                        kind = "tank"
+                        okv = lp in TANKS and val is not None and val.has(ex.sym(v2 + ".max_level")) and d["mult"] == 1
+                    elif tab == "pump_cost" and val is not None and any(".get_head_curve_coefficients()" in s_.name for s_ in val.free_symbols):
+                        kind = "head pump"
+                        okv = d["mult"] == 1 and (lp == "wn.head_pumps()" or (lp == "wn.pumps()" and (holds("HeadPump") or holds("'HEAD'"))))
+                        A, B_, C = [ex.sym("%s.get_head_curve_coefficients()[%d]" % (v2, i)) for i in range(3)]
+                        q = sp.exp(sp.log(A / (B_ * (C + 1))) / C)
+                        wantp = sp.Rational("9.81") * 1000 * q * (A - B_ * q ** C)
+                        okpm = (okpm is not False) and (is_zero(val * eff - wantp) or is_zero(val * eff / 100 - wantp) or is_zero(val - wantp))
+                        foundpm = str(val)[:160]
+                    elif tab == "pump_cost":
+                        kind = "power pump"
+                        okv = d["mult"] == 1 and (lp == "wn.power_pumps()" or (lp == "wn.pumps()" and (holds("PowerPump") or holds("'POWER'")))) and val is not None and \
+                            (is_zero(val * eff - ex.sym(v2 + ".power")) or is_zero(val * eff / 100 - ex.sym(v2 + ".power")))
+                    elif tab == "prv_cost":
+                        kind = "PRV"
+                        vt = v2 + ".valve_type"
+                        isprv = lp == "wn.prvs()" or (any(tv_env(t, {vt: "PRV"}) is not None for t, v in o.conds) and consistent_env(o.conds, {vt: "PRV"}) and not consistent_env(o.conds, {vt: "TCV"}))
+                        okv = (lp in VALVES or lp == "wn.prvs()") and val is not None and is_zero(val - ex.sym(v2 + ".diameter")) and d["mult"] == 1 and isprv
+                    got.append(kind or d["text"][:40])
+                    key = kind or d["text"][:40]
+                    seen_kinds.add(key)
+                    prev = seen_sel.get(key, (True, True, ""))
+                    seen_sel[key] = (prev[0] and d["sel_ok"], prev[1] and okv, d["how"] or str(val)[:80] + " * " + str(d["mult"]) + " in " + str(lp))
+                if fn is anc:
+                    # every element class whose own iterator the path walks contributes exactly one term; nothing else is added
+                    need = ["tank"] * any(w in TANKS for w in walked) + ["pipe"] * any(w in PIPES for w in walked) + ["head pump"] * ("wn.head_pumps()" in walked) + ["power pump"] * ("wn.power_pumps()" in walked)
+                    extra_ = [k for k in got if k not in ("tank", "pipe", "head pump", "power pump", "PRV")]
+                    if extra_ or len(set(got)) != len(got) or any(k not in got for k in need):
+                        sums_ok, sums_found = False, sorted(got)
+                else:
+                    chk.expect(sorted(got) == ["pipe"] and seen_sel.get("pipe", (0, 0))[1], "R-C20-5", "annual_ghg_emissions adds emission factor * length per pipe", loc(ghg), found=seen_sel.get("pipe", ("", "", sorted(got)))[2])
             if fn is anc:
-                # every element class whose own iterator the path walks contributes exactly one term; nothing else is added
-                need = ["tank"] * any(w in TANKS for w in walked) + ["pipe"] * any(w in PIPES for w in walked) + ["head pump"] * ("wn.head_pumps()" in walked) + ["power pump"] * ("wn.power_pumps()" in walked)
-                extra_ = [k for k in got if k not in ("tank", "pipe", "head pump", "power pump", "PRV")]
-                if extra_ or len(set(got)) != len(got) or any(k not in got for k in need):
-                    sums_ok, sums_found = False, sorted(got)
-            else:
-                chk.expect(sorted(got) == ["pipe"] and seen_sel.get("pipe", (0, 0))[1], "R-C20-5", "annual_ghg_emissions adds emission factor * length per pipe", loc(ghg), found=seen_sel.get("pipe", ("", "", sorted(got)))[2])
-        if fn is anc:
-            sums_ok = sums_ok and all(k in seen_sel and seen_sel[k][1] for k in ("tank", "pipe", "head pump", "power pump", "PRV"))
-            chk.expect(sums_ok, "R-C20-5", "annual_network_cost adds tank + pipe(cost * length) + pump + PRV costs", loc(anc),
-                       "each term is the cost looked up for the element's own size (construction volume, diameter, maximum power / efficiency, PRV diameter); only pipes are costed per metre",
-                       found=sums_found or [(k, v[2]) for k, v in seen_sel.items() if not v[1]][:3] or sorted(seen_sel))
-        for k, v in sorted(seen_sel.items()):
-            nsel += 1
-            chk.expect(v[0], "R-C20-5", "%s selects the nearest table entry by argmin |index - value| [%s]" % (label, k), loc(fn), expected="table.iloc[np.argmin(|table.index - value|)]", found=v[2])
-    chk.expect(okpm is True, "R-C20-4", "maximum pump power = g*rho*q*(A - B*q^C) at q = (A/(B*(C+1)))^(1/C) (before dividing by the efficiency)", loc(anc), found=foundpm)
-    chk.floor("R-C20-4", 12)
+                sums_ok = sums_ok and all(k in seen_sel and seen_sel[k][1] for k in ("tank", "pipe", "head pump", "power pump", "PRV"))
+                chk.expect(sums_ok, "R-C20-5", "annual_network_cost adds tank + pipe(cost * length) + pump + PRV costs", loc(anc),
+                           "each term is the cost looked up for the element's own size (construction volume, diameter, maximum power / efficiency, PRV diameter); only pipes are costed per metre",
+                           found=sums_found or [(k, v[2]) for k, v in seen_sel.items() if not v[1]][:3] or sorted(seen_sel))
+            for k, v in sorted(seen_sel.items()):
+                nsel += 1
+                chk.expect(v[0], "R-C20-5", "%s selects the nearest table entry by argmin |index - value| [%s]" % (label, k), loc(fn), expected="table.iloc[np.argmin(|table.index - value|)]", found=v[2])
+        chk.expect(okpm is True, "R-C20-4", "maximum pump power = g*rho*q*(A - B*q^C) at q = (A/(B*(C+1)))^(1/C) (before dividing by the efficiency)", loc(anc), found=foundpm)
+        chk.floor("R-C20-4", 12)
 
     # ---------------------------------------------------------------- R-C20-5 documented tables
-    doc = ast.get_docstring(anc) or ""
-    close = lambda a, b, tol: len(a) == len(b) and all(abs(x - y) <= tol for x, y in zip(a, b))
-    for var, header, unit_in in (("tank_cost", "Volume (m3)", False), ("pipe_cost", "Annual Cost ($/m/yr)", True), ("pump_cost", "Maximum power (W)", False)):
-        rows = rst_table(doc, header)
-        vals = default_table(repo, ECON, anc, var)
-        if rows is None or vals is None:
-            chk.bad("R-C20-5", "annual_network_cost: table and defaults for %s located" % var, loc(anc), found=(rows is not None, vals is not None))
-            continue
-        idx, cost = vals
-        doc_idx = [r[0] for r in rows]
-        doc_cost = [r[-1] for r in rows]
-        if unit_in:
-            chk.expect(cost == doc_cost and close(idx, [x * 0.0254 for x in doc_idx], 1e-9), "R-C20-5", "annual_network_cost default %s equals the table in its docstring" % var, loc(anc),
-                       expected=list(zip(doc_idx, doc_cost))[:4], found=list(zip(idx, cost))[:4])
-            chk.expect(close(idx, [x * 0.0254 for x in doc_idx], 1e-9), "R-C20-5", "%s diameters are converted from inches to metres (x 0.0254)" % var, loc(anc), found=idx[:4])
-            chk.expect(all(abs(r[0] * 0.0254 - r[1]) < 6e-4 for r in rows), "R-C20-5", "%s docstring metre column = inches * 0.0254" % var, loc(anc))
-        else:
-            chk.expect(idx == doc_idx and cost == doc_cost, "R-C20-5", "annual_network_cost default %s equals the table in its docstring" % var, loc(anc),
-                       expected=list(zip(doc_idx, doc_cost))[:4], found=list(zip(idx, cost))[:4])
-    # the PRV table is the second "Annual Cost ($/m/yr)" table
-    parts = doc.split("prv_cost :")
-    if len(parts) == 2:
-        rows = rst_table(parts[1], "Annual Cost ($/m/yr)")
-        vals = default_table(repo, ECON, anc, "prv_cost")
-        okv = rows is not None and vals is not None and close(vals[0], [r[0] * 0.0254 for r in rows], 1e-9) and vals[1] == [r[-1] for r in rows]
-        chk.expect(okv, "R-C20-5", "annual_network_cost default prv_cost equals the table in its docstring", loc(anc))
-    rows = rst_table(ast.get_docstring(ghg) or "", "Diameter (mm)")
-    vals = default_table(repo, ECON, ghg, "pipe_ghg")
-    okg = rows is not None and vals is not None and vals[1] == [r[-1] for r in rows] and close([x * 1000 for x in vals[0]], [r[0] for r in rows], 0.6)
-    chk.expect(okg, "R-C20-5", "annual_ghg_emissions default table equals the table in its docstring (inches * 25.4 = mm)", loc(ghg))
-    chk.floor("R-C20-5", 6 + 5, count=nsel + 6)
+    with chk.part("R-C20-5 documented tables"):
+        doc = ast.get_docstring(anc) or ""
+        close = lambda a, b, tol: len(a) == len(b) and all(abs(x - y) <= tol for x, y in zip(a, b))
+        for var, header, unit_in in (("tank_cost", "Volume (m3)", False), ("pipe_cost", "Annual Cost ($/m/yr)", True), ("pump_cost", "Maximum power (W)", False)):
+            rows = rst_table(doc, header)
+            vals = default_table(repo, ECON, anc, var)
+            if rows is None or vals is None:
+                chk.bad("R-C20-5", "annual_network_cost: table and defaults for %s located" % var, loc(anc), found=(rows is not None, vals is not None))
+                continue
+            idx, cost = vals
+            doc_idx = [r[0] for r in rows]
+            doc_cost = [r[-1] for r in rows]
+            if unit_in:
+                chk.expect(cost == doc_cost and close(idx, [x * 0.0254 for x in doc_idx], 1e-9), "R-C20-5", "annual_network_cost default %s equals the table in its docstring" % var, loc(anc),
+                           expected=list(zip(doc_idx, doc_cost))[:4], found=list(zip(idx, cost))[:4])
+                chk.expect(close(idx, [x * 0.0254 for x in doc_idx], 1e-9), "R-C20-5", "%s diameters are converted from inches to metres (x 0.0254)" % var, loc(anc), found=idx[:4])
+                chk.expect(all(abs(r[0] * 0.0254 - r[1]) < 6e-4 for r in rows), "R-C20-5", "%s docstring metre column = inches * 0.0254" % var, loc(anc))
+            else:
+                chk.expect(idx == doc_idx and cost == doc_cost, "R-C20-5", "annual_network_cost default %s equals the table in its docstring" % var, loc(anc),
+                           expected=list(zip(doc_idx, doc_cost))[:4], found=list(zip(idx, cost))[:4])
+        # the PRV table is the second "Annual Cost ($/m/yr)" table
+        parts = doc.split("prv_cost :")
+        if len(parts) == 2:
+            rows = rst_table(parts[1], "Annual Cost ($/m/yr)")
+            vals = default_table(repo, ECON, anc, "prv_cost")
+            okv = rows is not None and vals is not None and close(vals[0], [r[0] * 0.0254 for r in rows], 1e-9) and vals[1] == [r[-1] for r in rows]
+            chk.expect(okv, "R-C20-5", "annual_network_cost default prv_cost equals the table in its docstring", loc(anc))
+        rows = rst_table(ast.get_docstring(ghg) or "", "Diameter (mm)")
+        vals = default_table(repo, ECON, ghg, "pipe_ghg")
+        okg = rows is not None and vals is not None and vals[1] == [r[-1] for r in rows] and close([x * 1000 for x in vals[0]], [r[0] for r in rows], 0.6)
+        chk.expect(okg, "R-C20-5", "annual_ghg_emissions default table equals the table in its docstring (inches * 25.4 = mm)", loc(ghg))
+        chk.floor("R-C20-5", 6 + 5, count=nsel + 6)
 
 
 WITNESSES = [
